@@ -52,6 +52,29 @@ class UQSim(DS.DimwiseSim):
         return [[(repr(float(o.start)), repr(float(o.end)), int(o.levels[0]), int(o.levels[1])) for o in objs] for objs in self.containers()]
 
 
+class RefDist:
+    """R-dist: the distribution of one dimension built by the harness from the configuration (scipy only), independent of
+    the distribution objects the operation under test creates"""
+
+    def __init__(self, info, a, b):
+        import scipy.stats as st
+        fam = info[0]
+        if fam == "Uniform":
+            self.d = st.uniform(loc=a, scale=b - a)
+        elif fam == "Triangle":
+            self.d = st.triang(c=(info[1] - a) / (b - a), loc=a, scale=b - a)
+        elif fam == "Normal":
+            self.d = st.norm(loc=info[1], scale=info[2])
+        else:
+            raise ValueError(fam)
+
+    def cdf(self, x):
+        return float(self.d.cdf(x))
+
+    def ppf(self, q):
+        return float(self.d.ppf(q))
+
+
 def cdf_roundtrip_bound(distr, x):
     """accuracy of the family's inverse cdf at x, measured (not guessed): |cdf(ppf(q)) - q| for q = cdf(x) and neighbours"""
     q = float(distr.cdf(x))
@@ -120,7 +143,8 @@ class UQMonitor(Monitor):
 
     def post_refine(self, sim):
         ctx = sim.ctx
-        distrs = sim.op.get_distributions()
+        c = sim.cfg
+        distrs = [RefDist(c["distributions"][d], c["a"][d], c["b"][d]) for d in range(c["dim"])]
         for d, objs in enumerate(sim.containers()):
             now = [(float(o.start), float(o.end)) for o in objs]
             old = set(self.prev[d])
